@@ -18,20 +18,20 @@ CLAIMED = {
         "of Agg(TrueJac), TrueJac defined by forward mode. Scenarios exported by TLC (content-hash sample in quick, one "
         "third in thorough) are replayed into the real backward with exact equality in float32/float64 over assorted shapes "
         "and argument presentations, with every aggregator via the matrix/own-slice split; random larger programs are "
-        "recorded and validated by TLC (TraceBackward). Presentations: inputs as list/tuple/iterator/generator/dict view, tensors also as the list of their scalars, several torch realisations per abstract op; float64 precision runs (values not representable in float32) against a torch.autograd.grad twin; the recording aggregator carries a forward hook (aggregator(J) = Module.__call__); the implementation-shaped layer is bound to the code by stage traces (TraceBackwardImpl, DRIFT only)."),
+        "recorded and validated by TLC (TraceBackward). Presentations: inputs as list/tuple/iterator/generator/dict view, tensors also as the list of their scalars, several torch realisations per abstract op; float64 precision runs (values not representable in float32) against a torch.autograd.grad twin; the recording aggregator carries a forward hook (aggregator(J) = Module.__call__); the implementation-shaped layer is bound to the code by stage traces (TraceBackwardImpl, DRIFT only). Call mode \"leafout\" of Backward.tla admits leaves requiring grad among `tensors` (explored in a run of its own); leaves and pre-existing .grad are also presented with reversed strides; a seeded fraction of the scenarios is called twice on the retained graph (expectation grad0 + 2 update) and/or with positional arguments."),
  "C02": dict(mods="MtlBackward.tla (instantiates Backward.tla), TraceMtlBackward.tla", ref="7 C02",
    text="TLC checks (exhaustive small universe of trunks x head templates x parameter-list modes, plus simulation of a "
         "larger one) that per-task Grad/Accumulate, Stack and the instantiated Jac/Aggregate/Accumulate actions refine the "
         "property stated by forward mode with the features cut out as independent variables; exported scenarios are replayed "
-        "into the real mtl_backward with exact equality; random trunk/head programs (up to 5 tasks) are recorded and validated by TLC; float64 precision runs, forward-hook semantics and stage traces (TraceMtlImpl, DRIFT only) as in C01."),
+        "into the real mtl_backward with exact equality; random trunk/head programs (up to 5 tasks) are recorded and validated by TLC; float64 precision runs, forward-hook semantics and stage traces (TraceMtlImpl, DRIFT only) as in C01; memory layouts, repeated calls on the retained graph and positional arguments as in C01."),
  "C05": dict(mods="Backward.tla (TwinAutograd, RevEqualsFwd), MtlBackward.tla (TwinAutograd)", ref="7 C05",
    text="TLC checks on every program/call that the slice of w^T TrueJac equals the adjoint of one reverse sweep with "
         "cotangent w (specification-level statement of Constant(w) = torch.autograd.backward) and reverse = forward mode; "
         "each exported scenario is executed by torchjd (Constant with negative/zero weights, Sum, Mean) and by "
         "torch.autograd.backward on an identically built twin graph, .grad compared by equality (Mean: against the exact "
-        "rational from TLC's integer Jacobian); float64 precision runs and vmap-hostile programs (where differentiation is sequential by contract) are compared with the twin as well."),
+        "rational from TLC's integer Jacobian); float64 precision runs and vmap-hostile programs (where differentiation is sequential by contract) are compared with the twin as well. One Sum() / Mean() object serves the float64 and float32 calls of a case; repeated calls on the retained graph are compared with as many passes over the twin."),
  "C06": dict(mods="Accumulation.tla, FixedProg.tla, TraceAccumulation.tla", ref="7 C06",
-   text="TLC explores every history of length <= 3 (4 thorough) over 7 backward/mtl_backward calls and the user's .grad "
+   text="TLC explores every history of length <= 3 (4 thorough) over 9 backward/mtl_backward calls (incl. a frozen trunk and task parameters listed by a task whose loss does not depend on them) and the user's .grad "
         "manipulations (in-place zero, None, in-place edit, replacement) x 3 initial contents and checks: values never "
         "change, only requested leaves change, in place iff a .grad exists else fresh memory, live memories pairwise "
         "distinct, k identical calls = k times the update. Every full-length history is replayed step by step on the real "
@@ -42,7 +42,7 @@ CLAIMED = {
         "refinement of the property layer, termination) for every (m,k,retain), m <= 12 (24 thorough); every such triple is "
         "executed on the real backward and mtl_backward; the sweeps observed by an in-graph probe are validated by TLC "
         "against the property layer; values compared with TLC's expectation by equality; a vmap-hostile op must "
-        "differentiate in sequential mode. The differentiation requests of the repository's own autojac/doc tests are harvested by a pytest plugin and validated by TLC; mixed-precision and null-task variants; the counting clause for unbounded m and k is discharged as an inductive invariant by Apalache (reported in the evidence)."),
+        "differentiate in sequential mode. The differentiation requests of the repository's own autojac/doc tests are harvested by a pytest plugin and validated by TLC; mixed-precision and null-task variants; the counting clause for unbounded m and k is discharged as an inductive invariant by Apalache (reported in the evidence). A sparse family of larger row counts (LargeM: 33..100, up to 200 thorough) with a ladder of chunk sizes around 1, 32, 64 and m is model-checked and replayed as well."),
  "C12": dict(mods="LeafWalk.tla (PlusCal), TraceLeafWalk.tla", ref="7 C12",
    text="TLC checks a PlusCal transcription of the leaf walk against the declarative definition (AccumulateGrad nodes "
         "reachable avoiding excluded; tensor-level 'leaves that matter') on all programs with <= 4 tensors (5 thorough), "
@@ -53,13 +53,13 @@ CLAIMED = {
    text="TLC checks on a family of graph skeletons that torchjd's sweep sequences refine a single torch.autograd sweep "
         "w.r.t. per-node freed state for all histories of <= 3 calls (no self-inflicted failure, frees exactly what the "
         "twin frees, retain_graph=True frees nothing); histories are executed on torchjd and on a torch-only twin graph with "
-        "per-node probes after every call; random mtl-shaped graphs with 3-call histories are validated by TLC. The shape family includes parameter-free heads in any position (StripHeads) and heads with parameter-only branches that save tensors (ParamOnlyBranchesFreed)."),
+        "per-node probes after every call; random mtl-shaped graphs with 3-call histories are validated by TLC. The shape family includes parameter-free heads in any position (StripHeads) and heads with parameter-only branches that save tensors (ParamOnlyBranchesFreed). Value and argument presentations: leaves of the last / of every head holding the value zero (exactly-zero gradients), arguments passed positionally in the documented order."),
  "C20": dict(mods="Rejection.tla, FixedProg.tla, TraceRejection.tla", ref="7 C20",
    text="TLC enumerates every (valid base call, fault kind, position of the fault, pre-existing grads) on the fixed program "
         "and checks that the code's sequence of checks and writes never writes before a check that can still reject "
         "(NothingChanged, ChecksBeforeWrites); every scenario is executed on the real backward/mtl_backward and, if it "
         "raises, every .grad must be unchanged (value, object, memory); random programs with randomly injected faults are "
-        "recorded and validated by TLC (TraceRejection)."),
+        "recorded and validated by TLC (TraceRejection). The frozen leaf may carry a stale .grad (trained, then requires_grad_(False)): it is tracked too and must be left alone."),
 }
 
 EXTRA = V / "tools" / "manifest_extra.json"      # entries contributed for the other properties
